@@ -135,8 +135,14 @@ def leaf_scan(h, spec, now):
     return fit, ident_free
 
 
-def run_probe_child(h, spec, rank):
-    """In a forked child: add the probe, run one cycle, report."""
+def run_probe_child(h, spec, rank, decoys=False):
+    """In a forked child: add the probe, run one cycle, report.
+
+    With `decoys`, two instances of the probe's shape that fit nowhere (one far
+    too large in memory, one in cpu, nothing in the other dimensions) are
+    submitted first and the cell is run to quiescence again before the probe is
+    added behind them: pending instances of the same shape whose demands are
+    incomparable with each other and with the probe must not hide the probe."""
     r, w = os.pipe()
     pid = os.fork()
     if pid == 0:
@@ -149,13 +155,26 @@ def run_probe_child(h, spec, rank):
             alloc.update([0, 0, 0], rank, 0)
             drv.alloc_objs[(label, ('probe',))] = alloc
             drv.H.allocs[(label, ('probe',))] = dict(reserved=[0, 0, 0], rank=rank, adj=0, maxutil=None, traits=0)
+            out = {}
+            planted = False
+            if decoys:
+                before = {n: a.server for n, a in drv.cell.apps.items()}
+                for i, dem in enumerate(([10 ** 6, 0, 0], [0, 10 ** 6, 0])):
+                    d = dict(spec)
+                    d.update(name='probe.decoy#%010d' % (9900 + i), demand=dem, priority=100, group=None,
+                             limits=dict(spec['limits']))
+                    drv.op_add_app(d)
+                drv.cell.schedule()
+                drv.cell.schedule()
+                after = {n: a.server for n, a in drv.cell.apps.items() if n in before}
+                planted = after == before
+                out['decoys'] = 'planted' if planted else 'disturbed'
             drv.op_add_app(spec)
             engine.MON.reset_cycle()
-            out = {}
             try:
                 drv.cell.schedule()
                 app = drv.cell.apps[spec['name']]
-                out = dict(server=app.server, identity=app.identity,
+                out = dict(out, server=app.server, identity=app.identity,
                            rejected=spec['name'] in engine.MON.tracker_rejected,
                            consulted=engine.MON.tracker_consulted,
                            evictions=sum(1 for e in engine.MON.events if e['t'] == 'evict'))
